@@ -2,11 +2,14 @@
 
 spec/RefCell.tla (reference cells from the documentation), spec/MeshGen.tla (TLC generates every gluing of two
 reference cells, every rotation of a single cell, 2D three-cell chains, each with a catalogue of mesh parts),
-spec/MeshTopo.tla + MeshTopoCheck.tla (TLC judges the levels the real code produced), harness/c10_mesh.cpp.
+spec/MeshGenX.tla (on the same meshes: mesh parts WITH their own topology in every orientation code relative to their
+parent entities - RefCell!Aut - and the (mode, chart) configurations of RootMeshNode::refine_unique(AdaptMode)),
+spec/MeshTopo.tla + MeshTopoCheck.tla (TLC judges the levels the real code produced; adaption modes: SameTopology,
+ChartFrame, GraphChartRule, DualRule, DualVolume), harness/c10_mesh.cpp, harness/c10_adapt.cpp.
 """
 import glob, json, os, random, re, shutil, time
 import concurrent.futures as cf
-import vlib, vmeshlib
+import vlib, vmeshlib, c10x
 
 LEVEL = "model_checking"
 MESHDIR = os.path.join(vlib.REPO, "data", "meshes")
@@ -63,18 +66,112 @@ def nref_for(ncells, dim, fam, maxcells, maxref):
     return L
 
 
+MODES = ("none", "chart", "dual", "chartdual")
+# shipped mesh files with charts (Circle, Sphere, Extrude, Bezier with and without explicit parametrisation) for the adapt modes
+CHART_FILES_QUICK = ("unit_circle_quad_5.xml", "unit_circle_tria_6.xml", "square_circle_hole_quad_9.xml", "unit-sphere-hexa.xml",
+                     "cube_cylinder_hole_hexa_8.xml", "flowbench_s3d_01_hexa_11.xml", "unit-sphere-tetra.xml", "l-shape-quad.xml",
+                     "nozzle-1-quad.xml", "heat-v77-quad.xml", "unit_ring_fbm_quad_4.xml", "unit-square-quad.xml")
+
+
+def adapt_cases(tier, adapt_src, maxcells):
+    """cases of RootMeshNode::refine_unique(AdaptMode) (harness/c10_adapt.cpp).  (mesh, chart) configurations and the mode
+    list come from spec/MeshGenX.tla; quick runs a rotating selection of them, thorough all."""
+    out = []
+
+    def pick(c, name, newname, extra):
+        for p in c["parts"]:
+            if p.get("name") == name:
+                q = dict(p); q["name"] = newname; q.update(extra)
+                return [q]
+        return []
+    for i, (c, modes, charts) in enumerate(adapt_src):
+        fam, dim, gmode = c["fam"], c["dim"], c["mode"]
+        oparts = [p for p in c["parts"] if "tidx" in p]
+        parts = [{"name": "bnd", "boundary": True}] + pick(c, "fc1", "halo0", {"as": "halo", "rank": 3}) \
+            + pick(c, "cc1", "patch0", {"as": "patch", "rank": 0}) + pick(c, "fb1", "fbare", {}) + pick(c, "vb1", "vone", {})
+        if oparts:
+            parts.append(oparts[i % len(oparts)])
+            parts.append(oparts[(7 * i + 3) % len(oparts)] if len(oparts) > 1 else None)
+            if parts[-1] is None or parts[-1]["name"] == parts[-2]["name"]:
+                parts.pop()
+        confs = []       # (mode, chart or None)
+        if tier == "thorough" or (dim == 2 and gmode != "chain") :
+            for m in modes:
+                confs.append((m, None))
+                if charts:
+                    confs.append((m, charts[(i + len(confs)) % len(charts)]))
+            if tier == "thorough" and charts:
+                for k, g in enumerate(charts):
+                    confs.append(("chartdual", g))
+        elif gmode == "single":
+            for k, m in enumerate(modes):
+                confs.append((m, charts[(i + k) % len(charts)] if (charts and (i + k) % 2 == 0) else None))
+            confs.append(("chartdual", charts[i % len(charts)] if charts else None))
+        else:
+            # 3D pairs, 2D chains: one straight and one charted configuration per mesh, modes rotating
+            confs.append((modes[i % len(modes)], None))
+            if charts:
+                confs.append((("chart", "chartdual", "chartdual")[i % 3], charts[i % len(charts)]))
+        seen = set()
+        for m, g in confs:
+            key = (m, json.dumps(g, sort_keys=True))
+            if key in seen:
+                continue
+            seen.add(key)
+            # the chain stays dyadic unless a chart is in effect together with the dual adaption of hexahedra (division by 6)
+            fixedmode = (g is not None and m == "chartdual" and fam == "hypercube" and dim == 3)
+            nref = 1 if (fixedmode or (dim == 3 and tier == "quick" and gmode != "single")) else 2
+            a = {"kind": "adapt", "id": "adapt_%s_%s_%d" % (c["id"][4:], m, len(seen)), "fam": fam, "dim": dim, "src": c["src"],
+                 "srcname": "adapt:" + c["srcname"], "mode": m, "nref": nref, "maxcells": maxcells, "via": "adapt", "parts": parts}
+            if g is not None:
+                a["gchart"] = g
+            out.append(a)
+    # structured factories, all modes (straight meshes: every mode must reproduce the plain refinement)
+    for fam, dim in SHAPES:
+        tet = (fam, dim) == ("simplex", 3)     # the factories split every cube into 24 tetrahedra, each refined into 12
+        for nm, src, nref in (("unitcube", {"fac": "unitcube", "level": 0 if tet else 1}, 2 if (dim == 2 or (tier == "thorough" and not tet)) else 1),
+                              ("struct", {"fac": "struct", "nx": 2 if tet else 3, "ny": 1 if tet else 2, "nz": 1 if tet else 2},
+                               2 if (dim == 2 and tier == "thorough") else 1)):
+            for m in MODES:
+                out.append({"kind": "adapt", "id": "adapt_fac_%s_%s%d_%s" % (nm, fam, dim, m), "fam": fam, "dim": dim, "src": src,
+                            "srcname": "adapt:factory:" + nm, "mode": m, "nref": nref, "maxcells": maxcells, "via": "adapt",
+                            "parts": [{"name": "bnd", "boundary": True}, {"name": "patch0", "as": "patch", "rank": 1, "cellidx": [0, 1], "deduce": "top"}]})
+    # shipped mesh files with their charts (atlas): chart / chart|dual / dual (mode none is the plain file case)
+    for path, fam, dim, ncells in mesh_files():
+        base = os.path.basename(path)
+        if base in EXCLUDED_FILES:
+            continue
+        with open(path) as f:
+            if "<Chart" not in f.read():
+                continue
+        if tier == "quick" and base not in CHART_FILES_QUICK:
+            continue
+        if ncells > (400 if dim == 3 else 800) or ncells * (12 if (fam, dim) == ("simplex", 3) else (1 << dim)) > maxcells:
+            continue
+        for m in ("chart", "chartdual", "dual"):
+            if m != "chart" and fam == "simplex" and tier == "quick":
+                continue
+            out.append({"kind": "adapt", "id": "adapt_file_%s_%s" % (base[:-4], m), "fam": fam, "dim": dim, "src": {"file": path},
+                        "srcname": "adapt:file:" + base, "mode": m, "nref": 1, "maxcells": maxcells, "via": "adapt"})
+    return out
+
+
 def run(chk):
     tier = chk.tier
     rng = random.Random(vlib.seed())
-    binary, = vlib.build(["c10_mesh"])
+    binary, abinary = vlib.build(["c10_mesh", "c10_adapt"])
     gdir = os.path.join(vlib.BUILD, "gen", "C10", "run_%d" % os.getpid())
     os.makedirs(gdir, exist_ok=True)
     try:
-        _run(chk, tier, rng, binary, gdir)
+        _run(chk, tier, rng, binary, abinary, gdir)
     finally:
         shutil.rmtree(gdir, ignore_errors=True)
         for p in glob.glob(os.path.join(vlib.SPEC, "gen_c10_%d_*.cfg" % os.getpid())):
             os.remove(p)
+
+
+def hname(c):
+    return "c10_adapt" if c.get("kind") == "adapt" else "c10_mesh"
 
 
 def route_of(c):
@@ -86,11 +183,13 @@ def route_of(c):
 
 def sig_mesh(c, pred, lev, part):
     pk = re.sub(r"\d+$", "", part) if part else ""
+    if re.match(r"o\d[spak]", part or ""):
+        pk = "oriented%s" % part[1]
     return {"kind": "mesh", "src": c["srcname"], "fam": c["fam"], "dim": c["dim"], "pred": pred, "level": lev, "partkind": pk,
-            "via": c.get("via", "node"), "route": route_of(c), "perm": c.get("perm", "")}
+            "via": c.get("via", "node"), "route": route_of(c), "perm": c.get("perm", ""), "mode": c.get("mode", "") if c.get("kind") == "adapt" else ""}
 
 
-def _run(chk, tier, rng, binary, gdir):
+def _run(chk, tier, rng, binary, abinary, gdir):
     # ---- 1. the reference cells: sanity theorems (M) and cross-check of the documented tables against the code ----
     r = vlib.tlc("RefCellSanity", timeout=600)
     chk.add_tlc(r, "RefCellSanity")
@@ -99,6 +198,7 @@ def _run(chk, tier, rng, binary, gdir):
         return
     refcases = r.printed
     rots = {(c["fam"], c["dim"]): c["rot"] for c in refcases}
+    auts = {c["fam"]: (c["aut"], c["etab"]) for c in refcases}
     res = vlib.run_cases(binary, refcases, tmo=20, shards=1)
     vlib.judge_results(chk, refcases, res, lambda c, rr: {"kind": "refcell", "fam": c["fam"], "dim": c["dim"], "outcome": rr.get("outcome", "mismatch")},
                        keyf=lambda c: "refcell %s %d" % (c["fam"], c["dim"]), harness="c10_mesh")
@@ -206,7 +306,11 @@ def _run(chk, tier, rng, binary, gdir):
                               "src": src, "srcname": "renumber:" + name, "nref": 1, "maxcells": maxcells, "via": "node", "perm": st,
                               "parts": cellparts(nc)})
     chk.extra["renumbering_cases"] = len(permcases)
-    cases += filecases + faccases + permcases
+    acases = adapt_cases(tier, adapt_src, maxcells)
+    chk.extra["adapt_mode_cases"] = len(acases)
+    chk.extra["adapt_mode_cases_by_mode"] = {m: sum(1 for a in acases if a["mode"] == m) for m in MODES}
+    chk.extra["adapt_mode_cases_with_chart"] = sum(1 for a in acases if "gchart" in a or "file" in a["src"])
+    cases += filecases + faccases + permcases + acases
     # development aid (never set by bin/check users; recorded in the evidence if it is): restrict the case sources
     dev = os.environ.get("C10_DEV_ONLY")
     if dev:
@@ -220,7 +324,10 @@ def _run(chk, tier, rng, binary, gdir):
     def harness_pass(cs, record_failures=True):
         for c in cs:
             c["out"] = os.path.join(gdir, c["id"] + ".json")
-        res = vlib.run_cases(binary, cs, tmo=120, shards=8)
+        res = [None] * len(cs)
+        for bin_, sel in ((binary, [k for k, c in enumerate(cs) if c["kind"] != "adapt"]), (abinary, [k for k, c in enumerate(cs) if c["kind"] == "adapt"])):
+            for k, rr in zip(sel, vlib.run_cases(bin_, [cs[k] for k in sel], tmo=120, shards=8)):
+                res[k] = rr
         good = []
         for c, rr in zip(cs, res):
             if rr.get("ok") is True and rr.get("skip"):
@@ -228,6 +335,8 @@ def _run(chk, tier, rng, binary, gdir):
                 continue
             if rr.get("ok") is True:
                 good.append(c)
+                if rr.get("fixed"):
+                    chk.extra["adapt_fixed_point_cases"] = chk.extra.get("adapt_fixed_point_cases", 0) + 1
                 chk.extra["max_proj_margin"] = max(chk.extra.get("max_proj_margin", 0.0), rr.get("margin", 0.0))
                 continue
             if record_failures:
@@ -253,7 +362,17 @@ def _run(chk, tier, rng, binary, gdir):
             dup = any(len(set(p["t"][e])) != len(p["t"][e]) for e in range(dim + 1))
             parts.append({"name": p["name"], "ents": ents, "deduce": "none", "topo": bool(p["topo"]) and not dup})
         for k in range(nvar):
-            nraw, nparts = vmeshlib.renumber(raw, rots[(fam, dim)], rng, parts)
+            vparts = parts
+            if (k + len(variants)) % 2 == 1:
+                # every second variant: the parts with own topology get it in a seeded random orientation per entity
+                # (every code of RefCell!Aut) instead of the one deduced from the parent
+                vparts = []
+                for pp in parts:
+                    q = c10x.orient_topo_part(pp, auts[fam][0], auts[fam][1], rng) if pp["topo"] else None
+                    if q is not None:
+                        chk.extra["reoriented_file_part_topologies"] = chk.extra.get("reoriented_file_part_topologies", 0) + 1
+                    vparts.append(q if q is not None else pp)
+            nraw, nparts = vmeshlib.renumber(raw, rots[(fam, dim)], rng, vparts)
             variants.append({"kind": "mesh", "id": c["id"] + "_perm%d" % k, "fam": fam, "dim": dim, "src": {"raw": nraw},
                              "srcname": "perm:" + c["srcname"], "nref": c["nref"], "maxcells": c["maxcells"], "parts": nparts,
                              "via": ("node", "refinery", "inplace")[(k + len(variants)) % 3]})
@@ -273,7 +392,7 @@ def _run(chk, tier, rng, binary, gdir):
             rr = c0["parent_failure"]
             desc = rr.get("why") or ("outcome %s: %s" % (rr.get("outcome"), (rr.get("stderr") or "")[:600]))
             chk.violation(sig_mesh(c0, "harness:" + str(rr.get("outcome", "bad")), -1, ""), "%s: %s" % (c0["id"], desc),
-                          {"kind": "case", "harness": "c10_mesh", "case": {k: c0[k] for k in c0 if k != "parent_failure"}, "result": rr})
+                          {"kind": "case", "harness": hname(c0), "case": {k: c0[k] for k in c0 if k != "parent_failure"}, "result": rr})
     good += good0
     chk.extra["file_meshes"] = len(filecases)
     chk.extra["excluded_files"] = EXCLUDED_FILES
@@ -309,27 +428,37 @@ def _run(chk, tier, rng, binary, gdir):
             rr = c["parent_failure"]
             desc = rr.get("why") or ("outcome %s: %s" % (rr.get("outcome"), (rr.get("stderr") or "")[:600]))
             chk.violation(sig_mesh(c, "harness:" + str(rr.get("outcome", "bad")), -1, ""), "%s: valid input, but %s" % (fc["id"], desc),
-                          {"kind": "case", "harness": "c10_mesh", "case": slim, "result": rr})
+                          {"kind": "case", "harness": hname(c), "case": slim, "result": rr})
         for fl in (lvl0 or fails):
             chk.violation(sig_mesh(c, fl["p"], fl["l"], fl["part"]),
                           "%s: %s does not hold at level %d%s" % (fc["id"], fl["p"], fl["l"], (" for part " + fl["part"]) if fl["part"] else ""),
-                          {"kind": "case", "harness": "c10_mesh", "case": slim, "verdict": v})
+                          {"kind": "case", "harness": hname(c), "case": slim, "verdict": v})
     chk.traces = len(full)
     chk.extra["levels_validated"] = nlev
     chk.extra["cases_with_exact_geometry"] = ngeo
     chk.extra["largest_fine_mesh_cells"] = max([fc.get("fine_cells", 0) for fc in full] or [0])
     chk.exhaustive = True
-    chk.rule = ("[routes: RootMeshNode::refine_unique, StandardRefinery objects, one mesh refined in place by move-assignment; "
+    chk.rule = ("[routes: RootMeshNode::refine_unique with every AdaptMode (none, chart, dual, chart|dual), StandardRefinery objects, one mesh refined in place by move-assignment; "
                 "RootMeshNode::create_permutation with all 7 strategies judged by Relabelled/PartRelabelled/PermutationsStored] TLC enumerates (spec/MeshGen.tla) every gluing of two reference cells (all facets x all admissible vertex bijections), every "
-                "rotation of the single cell and every 2D three-cell chain, each with its catalogue of mesh parts; plus shipped mesh files, "
+                "rotation of the single cell and every 2D three-cell chain, each with its catalogue of mesh parts; (spec/MeshGenX.tla) on these meshes mesh parts WITH own topology whose entities carry "
+                "every orientation code relative to their parent entity (single cell: every (edge | face | 2D cell) x every code of RefCell!Aut - 2 / 6 / 8 -; 2D pairs: every pair of codes; "
+                "3D pairs and chains: all faces / cells with codes running through the group), judged by PartTopologyOK + PartFollows on every refined level; and the adaption configurations "
+                "(mode x {no chart, graph chart x_b = c + sgn x_a^2/2^s on a boundary facet}) judged by SameTopology/SameParts/ChartFrame/GraphChartRule/DualRule/DualVolume plus the complete "
+                "refinement relation against the unadapted refinement of the same node; plus shipped mesh files (with their Circle/Sphere/Extrude/Bezier charts in the chart modes), "
                 "structured factories and seeded re-numbered/re-oriented variants. Each case = all levels produced by the real refinement, "
-                "judged by TLC against spec/MeshTopo.tla; non-trivial = at least one refinement; distinct = distinct case id (mesh x route)")
+                "judged by TLC against spec/MeshTopo.tla; non-trivial = at least one refinement; distinct = distinct case id (mesh x route x mode x chart)")
     for fc in full[:3]:
         chk.sample({"id": fc["id"], "n": fc.get("n"), "parts": fc.get("parts"), "verdict": verdicts[fc["id"]]})
     chk.assumptions = ["the origin certificate is computed by the glue code but every entry is checked by the specification (IsParent, VertexOrigin)",
                        "non-dyadic coordinates are snapped to a dyadic grid for the exact checks (a still valid mesh); on the original coordinates "
                        "volume and orientation are decided through the stated floating point projection (64 n eps)",
-                       "adaption to charts is switched off (AdaptMode::none): the property is about the topological refinement"]
+                       "adapt modes: coordinates are exact integers at scale 2^K (a coordinate may deviate from the dyadic grid by at most 64 eps - the dual "
+                       "adaption of hexahedra divides by 6 - which the specification bounds: ProjOnDyadicGrid); where a chart makes them non-dyadic (Circle, Sphere, "
+                       "Bezier charts of the shipped files; graph chart + dual adaption in 3D) they are fixed-point numbers at scale 2^K and DualRule is decided with the "
+                       "rounding slack nfacets + 1 units (one refinement step only)",
+                       "with a chart in effect volume and orientation of the adapted mesh are not claimed (the domain changes); claimed are: unchanged topology and mesh parts, "
+                       "only vertices of chart-carrying parts move (ChartFrame), the dual rule, and volume(dual adapted) = volume(chart adapted)",
+                       "the graph chart is a harness-side implementation of the public Atlas::ChartBase interface whose map is defined in spec/MeshTopo.tla (GraphChartRule)"]
 
 
 def replay(obj):
